@@ -51,3 +51,54 @@ Proof.
   destruct (subset_keys first second && subset_keys second first); [|reflexivity].
   apply mapM_ext. intros kv. now rewrite (H (fst kv)).
 Qed.
+
+(* the order of the FIRST operand only permutes the result (when there is one) *)
+From Coq Require Import Permutation.
+
+Lemma mapM_perm {A B} (f : A -> result B) l l' r :
+  Permutation l l' -> mapM f l = Ok r -> exists r', mapM f l' = Ok r' /\ Permutation r r'.
+Proof.
+  intros P. revert r. induction P as [|x l l' P IH|x y l|l l' l'' P1 IH1 P2 IH2]; intros r H.
+  - exists r. split; [exact H|apply Permutation_refl].
+  - cbn [mapM] in *. destruct (f x) as [b|e]; cbn [bind] in *; [|discriminate].
+    destruct (mapM f l) as [bs|e] eqn:E; cbn [bind] in *; [|discriminate].
+    injection H as <-. destruct (IH bs eq_refl) as (bs' & -> & Pb). cbn [bind].
+    exists (b :: bs'). split; [reflexivity|now apply perm_skip].
+  - cbn [mapM] in *. destruct (f y) as [by_|e]; cbn [bind] in *; [|discriminate].
+    destruct (f x) as [bx|e]; cbn [bind] in *; [|discriminate].
+    destruct (mapM f l) as [bs|e]; cbn [bind] in *; [|discriminate].
+    injection H as <-. exists (bx :: by_ :: bs). split; [reflexivity|apply perm_swap].
+  - destruct (IH1 r H) as (r1 & H1 & Q1). destruct (IH2 r1 H1) as (r2 & H2 & Q2).
+    exists r2. split; [exact H2|eapply Permutation_trans; eauto].
+Qed.
+
+Lemma keys_perm {V} (a b : list (str * V)) : Permutation a b -> Permutation (keys a) (keys b).
+Proof. intros P. unfold keys. now apply Permutation_map. Qed.
+
+Lemma subset_keys_perm_l (a a' b : list (str * value)) :
+  Permutation a a' -> subset_keys a' b = subset_keys a b.
+Proof.
+  intros P. unfold subset_keys. apply Bool.eq_true_iff_eq. rewrite !forallb_forall.
+  pose proof (keys_perm a a' P) as Pk.
+  split; intros H k Hk; apply H; [eapply Permutation_in; [exact Pk|exact Hk] | eapply Permutation_in; [apply Permutation_sym; exact Pk|exact Hk]].
+Qed.
+
+Lemma subset_keys_perm_r (a a' b : list (str * value)) :
+  Permutation a a' -> subset_keys b a' = subset_keys b a.
+Proof.
+  intros P. unfold subset_keys. induction (keys b) as [|k r IH]; cbn [forallb]; [reflexivity|].
+  rewrite IH. f_equal. apply Bool.eq_true_iff_eq. rewrite !has_key_in.
+  pose proof (keys_perm a a' P) as Pk.
+  split; intros H; [eapply Permutation_in; [apply Permutation_sym; exact Pk|exact H] | eapply Permutation_in; [exact Pk|exact H]].
+Qed.
+
+Lemma values_combine_first_key_order carry op first first' second out :
+  Permutation first first' ->
+  values_combine carry op first second = Ok out ->
+  exists out', values_combine carry op first' second = Ok out' /\ Permutation out out'.
+Proof.
+  intros P. unfold values_combine.
+  rewrite (subset_keys_perm_l first first' second P), (subset_keys_perm_r first first' second P).
+  destruct (subset_keys first second && subset_keys second first); [|discriminate].
+  now apply mapM_perm.
+Qed.
